@@ -1,7 +1,17 @@
-from props import _generic as g
+"""C11 - multiunion is the exact sorted union for every integer-key family."""
+QUICK = ["II", "UU", "LL", "QQ"]
+ALL = "IO II IF IU UO UU UF UI LO LL LF LQ QO QQ QF QL".split()
 
 
 def run(ctx):
-    fns = g.run_pyvc(ctx, "C11")
-    ctx.standin("multiunion_rt", families=tuple("II,UU,LL,QQ,IO,LF".split(",")))
-    return "exploration", "bounded stand-in multiunion_rt (no obligation of the deductive engines serves C11 yet)"
+    fams = QUICK if ctx.tier == "quick" else ALL
+    res = ctx.cvc(fams, ["F-SORT"], functions=["radixsort_int"])
+    from lib import replay
+    replay.replay_fsort(ctx, res)
+    ctx.standin("multiunion_rt", families=("II", "UU", "LL", "QQ", "IO", "LF") if ctx.tier == "quick" else tuple(ALL))
+    return "other", (
+        "F-SORT: the pile order of the most significant pass of radixsort_int, read off the macro-expanded AST of "
+        "each translation unit (%s), agrees with the order of that unit's KEY_TYPE - a bit-vector validity over the "
+        "declared width and signedness (x <_T y <=> key(x) <_u key(y)). The distribution passes, quicksort, uniq, "
+        "the gather loop and the Python fallback are NOT under contract: bounded stand-in multiunion_rt (both sides "
+        "of the 800-element switch, extremes and top-bit keys, all operand kinds)." % ", ".join(fams))
